@@ -351,6 +351,19 @@ def chunks(tier, seed):
     return ch
 
 
+def ws_tail(c, i):
+    """every third target line ends in a white-space character other than (or as well as) a blank: a line taken
+    from a file still carries its terminator; what stands outside the field's span stays as it is"""
+    if i % 3 != 1 or c.get("mode") != "field":
+        return c
+    l = c["line"]
+    key = "s" if "s" in l else "b"
+    if not l[key]:
+        return c
+    tail = ([9, 10, 13, 160, 32, 11] if key == "s" else [9, 10, 13, 32, 12, 11])[(i // 3) % 6]
+    return {**c, "line": {key: l[key][:-1] + [tail]}}
+
+
 def cases_of(chunk):
     k = chunk["kind"]
     if k == "corpus":
@@ -362,9 +375,10 @@ def cases_of(chunk):
             if i % chunk["of"] == chunk["part"]:
                 if chunk["k"] == "int" and i % 5 == 0:
                     c = {**c, "int_as": ("float", "np_float", "np_int")[(i // 5) % 3]}
-                yield c
+                yield ws_tail(c, i)
     elif k == "exhbin":
-        yield from exhaustive_field_bin(chunk["mst"], chunk["ml"])
+        for i, c in enumerate(exhaustive_field_bin(chunk["mst"], chunk["ml"])):
+            yield ws_tail(c, i)
     elif k == "rline":
         rng = random.Random(chunk["seed"])
         for _ in range(chunk["n"]):
